@@ -94,6 +94,10 @@ def run(ctx):
             boundary = k - n1 + [0, 1, -1][(t // 6) % 3]
             if placement == "far":
                 placement = "near"
+            if metric == "user-threshold":
+                # a quantile threshold on 3-9 initial samples can disconnect all of them, and a fit without any edge is undefined
+                # (recorded under C18:empty-combined-graph); the size thresholds are exercised without a cut-off
+                metric = "euclidean"
         X1 = make_data(rng, mname, n1, d)
         batches = []
         for b in range(nb):
